@@ -124,7 +124,7 @@ theorem mapExcept_mem {α β ε : Type} (f : α → Except ε β) : ∀ (as : Li
 theorem C04_report_years (w : Int) (dp : Nat) (ex : List (Int × Rat)) (year : Option Int) (l : List Tx)
     (r : Report) (h : calculate w dp ex year l = .ok r) :
     ∀ s ∈ r.years, ∃ ds, mkSummary ex l s.year ds = .ok s := by
-  unfold calculate at h
+  unfold calculate reportFrom at h
   split at h
   · cases h
   · rename_i rs _
